@@ -119,7 +119,7 @@ tracker is decided (C20: 150 more blocks after the verdict is fixed).
 Wave 7 (40 changes, two for every property, ids `Cxx-w7-k`) closed the session. 24 of 40 were flagged on the first
 run by the check of the property they were seeded for (two of those with a family added from the seeding report
 minutes earlier, noted in their meta.json), another 8 by a neighbouring property's check on that first run. The 16
-misses, 14 of which the owning check now flags: decoded values that depend on earlier decodes (C02: block keys with
+misses, 15 of which the owning check now flags: decoded values that depend on earlier decodes (C02: block keys with
 missing members after a full observation), a block-history buffer rewritten between hook and Encode and a remembered
 byte-limit cut (C03: the history race part with peer validation; history and proposals growing between two
 observations of one ordering seed), upkeep ids assumed unique per conditional upkeep (C04: injected work-id
@@ -128,8 +128,9 @@ across a re-accept (C07 / C08: collector races, re-accepted reports), a proposal
 6 / 7 / 11 conditionals at once), a two-phase Dequeue (C11: real-goroutine race part), a panic promoted to a hard
 failure (C13: batches failing by panic), pooled encode buffers (C15: held bytes), a Close that a poll's own context
 swallows and tick slots leaked by panics (C18: Close mid-poll, six panics in a row), a transactions slice shared by
-all blocks (C19: tagged block content). Two were left to the property that owns the changed function, whose check
-flags them with a failing history: C09-w7-2 (coordinator.Accept: C06) and C12-w7-1 (runner result collector: C13).
+all blocks (C19: tagged block content). A result collector recycled by the runner while a flow still post-processes its slice (C12-w7-1) led to the op
+`par`: two flows overlap on the shared runner, the first held inside a slow sink. One change was left to the property
+that owns the changed function, whose check flags it with a failing history: C09-w7-2 (coordinator.Accept: C06).
 Across the three waves of this session the recurring theme was **something kept from an earlier call** - a memo, a
 pooled buffer, a reused decode target, a remembered height / cut / verdict / block - behind an interface that reads
 as a pure function; the harnesses now routinely (i) use long-lived instances and make an unrelated earlier call,
